@@ -14,7 +14,7 @@
 #[cfg(not(feature = "widths-b"))]
 pub const WIDTHS: &[usize] = &[0, 1, 2, 3, 7, 8, 12, 13, 16, 30, 31, 32, 33, 60, 63, 64, 65, 72, 100, 121, 127, 128, 129, 160, 192, 200, 250, 255, 256, 257, 320, 384, 440, 441, 448, 512, 520, 535, 536, 768, 1024, 2048, 4096, 4160];
 #[cfg(feature = "widths-b")]
-pub const WIDTHS: &[usize] = &[4, 5, 6, 9, 15, 24, 40, 48, 56, 57, 61, 66, 80, 96, 112, 120, 126, 130, 136, 184, 191, 193, 224, 248, 264, 272, 300, 400, 447, 449, 504, 528, 576, 600, 640, 704, 832, 896, 960, 1000, 1536, 3000, 4224];
+pub const WIDTHS: &[usize] = &[4, 5, 6, 9, 15, 24, 40, 48, 56, 57, 61, 66, 80, 96, 112, 120, 126, 130, 136, 184, 191, 193, 224, 248, 264, 272, 300, 400, 447, 449, 504, 528, 576, 600, 640, 704, 832, 896, 960, 1000, 1536, 3000, 4224, 65600];
 
 /// Widths small enough to enumerate every value / every short input.
 #[cfg(not(feature = "widths-b"))]
@@ -143,6 +143,7 @@ macro_rules! for_width {
             1536 => $f::<1536, 24>($($a),*),
             3000 => $f::<3000, 47>($($a),*),
             4224 => $f::<4224, 66>($($a),*),
+            65600 => $f::<65600, 1025>($($a),*),
             other => panic!("width {other} is not monomorphised in this build (set B)"),
         }
     };
